@@ -5,6 +5,7 @@ pub mod c04;
 pub mod c05;
 pub mod c06;
 pub mod c07;
+pub mod c12;
 pub mod c13;
 pub mod c15;
 pub mod c16;
@@ -49,6 +50,7 @@ pub fn run(prop: &str, tier: Tier, seed: u64, out: &str) -> bool {
         "C09" => baseline_hist::run(baseline_hist::Which::C09, tier, seed, out),
         "C10" => baseline_hist::run(baseline_hist::Which::C10, tier, seed, out),
         "C11" => baseline_hist::run(baseline_hist::Which::C11, tier, seed, out),
+        "C12" => c12::run(tier, seed, out),
         "C13" => c13::run(tier, seed, out),
         "C15" => c15::run(tier, seed, out),
         "C16" => c16::run(tier, seed, out),
